@@ -505,7 +505,8 @@ func (c *Comparer) Leaks(v reflect.Value, n *Node, uni int, path string) {
 		fp := fmt.Sprintf("%s.F%d", path, fi)
 		evs := c.eventsFor(n, fi)
 		if len(evs) == 0 {
-			if !fv.IsZero() && !(fv.Kind() == reflect.Slice && fv.Len() == 0) {
+			if !fv.IsZero() {
+				// (a slice that is empty but not nil has been written too: the zero value of a slice is nil)
 				c.add(fp, "leak", "field holds %s although no capture on the accepted path wrote it", brief(fv))
 			}
 			continue
